@@ -96,7 +96,7 @@ func (p WritePoint) String() string { return [...]string{"open", "write", "commi
 // WriteFault is the decision for one write-side step.
 type WriteFault struct {
 	Kind  FaultKind
-	After int // EIOMid on WWrite: bytes accepted before the error
+	After int   // EIOMid on WWrite: bytes accepted before the error
 	Err   error // see ReadFault.Err
 }
 
@@ -140,6 +140,8 @@ type Store struct {
 	tokens     int
 	durableLen int
 	Quota      int // ENOSPC after this many durable bytes (0 = unlimited)
+	// TornCommits counts commits of buffers whose Write had failed.
+	TornCommits int
 
 	Fired map[string]int // fault kind -> times it actually fired
 	// ReadCids is the ordered list of requested CIDs (every request).
@@ -529,10 +531,12 @@ func (s *Store) WriteOpener(_ linking.LinkContext) (io.Writer, linking.BlockWrit
 			}
 		}
 		if w.dead {
-			// a torn buffer must never become durable even if the caller
-			// ignores the write error and commits anyway
+			// the caller ignored a failed Write and commits anyway: like a real
+			// store, this one makes durable whatever bytes it was given - a
+			// block whose content does not match its CID. Callers must not do
+			// that; oracles look for it (TornCommits, content checks).
+			s.TornCommits++
 			s.log("Commit", cl.Cid, "commit-of-torn-write", w.buf.Len())
-			return s.inject(CommitFail, false)
 		}
 		data := append([]byte(nil), w.buf.Bytes()...)
 		k := cl.Cid.KeyString()
